@@ -22,14 +22,24 @@ import (
 // with) is released at scheduling point Arg (Arg < 0: none). At the end the harness closes what is
 // still open; every Close must return, nothing may panic, and no thread of the server or of a
 // connection may survive.
-func ServerHarness(name, fault string, nclients, maxConn int, any, closeEach bool, bound int) *explore.Harness {
+func ServerHarness(name, fault string, nclients, maxConn int, any, closeEach, handlers bool, bound int) *explore.Harness {
 	const v = primitive.ProtocolVersion4
-	return &explore.Harness{Name: name, Cost: "delay", Bound: bound, Param: fmt.Sprintf("v4 fault=%s clients=%d maxConnections=%d acceptAny=%v closeEach=%v", fault, nclients, maxConn, any, closeEach), Body: func(o *explore.Obs) {
+	return &explore.Harness{Name: name, Cost: "delay", Bound: bound, Param: fmt.Sprintf("v4 fault=%s clients=%d maxConnections=%d acceptAny=%v closeEach=%v handlers=%v", fault, nclients, maxConn, any, closeEach, handlers), Body: func(o *explore.Obs) {
 		ctx, cancel := vctx.WithCancel(vctx.Background())
 		srv := client.NewCqlServer("127.0.0.1:9042", nil)
 		srv.MaxConnections = maxConn
 		srv.MaxInFlight = 4
 		srv.AcceptTimeout = 5 * time.Second
+		if handlers {
+			// the server answers by itself: handshake and heartbeat handlers of the library plus one that answers queries;
+			// every handled request runs in a goroutine of the connection
+			srv.RequestHandlers = []client.RequestHandler{client.HandshakeHandler, client.HeartbeatHandler, func(req *frame.Frame, _ *client.CqlServerConnection, _ client.RequestHandlerContext) *frame.Frame {
+				if _, ok := req.Body.Message.(*message.Query); ok {
+					return frame.NewFrame(req.Header.Version, req.Header.StreamId, &message.VoidResult{})
+				}
+				return nil
+			}}
+		}
 		if err := srv.Start(ctx); err != nil {
 			o.Fail("C16:setup", "CqlServer.Start", "%v", err)
 			cancel()
@@ -82,18 +92,20 @@ func ServerHarness(name, fault string, nclients, maxConn int, any, closeEach boo
 					return
 				}
 				sconns = append(sconns, sc)
-				srvDone := false
-				sched.GoNamed(fmt.Sprintf("server-side-%d", i), func() {
-					defer func() { srvDone = true }()
-					if err := sc.AcceptHandshake(); err != nil {
-						return
-					}
-					req, err := sc.Receive()
-					if err != nil {
-						return
-					}
-					_ = sc.Send(frame.NewFrame(v, req.Header.StreamId, &message.VoidResult{}))
-				})
+				srvDone := handlers
+				if !handlers {
+					sched.GoNamed(fmt.Sprintf("server-side-%d", i), func() {
+						defer func() { srvDone = true }()
+						if err := sc.AcceptHandshake(); err != nil {
+							return
+						}
+						req, err := sc.Receive()
+						if err != nil {
+							return
+						}
+						_ = sc.Send(frame.NewFrame(v, req.Header.StreamId, &message.VoidResult{}))
+					})
+				}
 				ok := false
 				if err := cc.InitiateHandshake(v, 0); err == nil {
 					if r, err := cc.Send(frame.NewFrame(v, 0, &message.Query{Query: fmt.Sprintf("q%d", i), Options: &message.QueryOptions{Consistency: primitive.ConsistencyLevelOne}})); err == nil {
@@ -168,11 +180,13 @@ func RegisterServer() []ServerDesc {
 		ds = append(ds, ServerDesc{h.Name, qb, tb, quick})
 	}
 	for _, fault := range []string{"server-close", "cancel"} {
-		add(ServerHarness("server/"+fault+"/1client", fault, 1, 2, false, false, 0), 1, 2, true)
-		add(ServerHarness("server/"+fault+"/2clients", fault, 2, 2, false, false, 0), 0, 1, true)
-		add(ServerHarness("server/"+fault+"/2clients-any", fault, 2, 2, true, false, 0), 0, 1, false)
+		add(ServerHarness("server/"+fault+"/1client", fault, 1, 2, false, false, false, 0), 1, 2, true)
+		add(ServerHarness("server/"+fault+"/2clients", fault, 2, 2, false, false, false, 0), 0, 1, true)
+		add(ServerHarness("server/"+fault+"/2clients-any", fault, 2, 2, true, false, false, 0), 0, 1, false)
 		// more connections over the life of the server than MaxConnections, each closed before the next
-		add(ServerHarness("server/"+fault+"/3clients-max1", fault, 3, 1, false, true, 0), 0, 1, true)
+		add(ServerHarness("server/"+fault+"/3clients-max1", fault, 3, 1, false, true, false, 0), 0, 1, true)
+		// the server answers through its request handlers (one goroutine of the connection per handled request)
+		add(ServerHarness("server/"+fault+"/2clients-handlers", fault, 2, 2, false, false, true, 0), 0, 1, true)
 	}
 	return ds
 }
